@@ -302,3 +302,26 @@ def triangulate_faces(faces):
         for k in range(1, len(f) - 1):
             out.append([f[0], f[k], f[k + 1]])
     return out
+
+
+def drop_chunks(n, singles_up_to=48):
+    """(lo, hi) index ranges to try removing from a list of n elements: halves, quarters, eighths, then single elements"""
+    seen = set()
+    for parts in (2, 4, 8):
+        if n >= parts:
+            step = n // parts
+            for i in range(parts):
+                lo, hi = i * step, (n if i == parts - 1 else (i + 1) * step)
+                if (lo, hi) not in seen and 0 < hi - lo < n:
+                    seen.add((lo, hi))
+                    yield lo, hi
+    if n <= singles_up_to:
+        for i in range(n):
+            if (i, i + 1) not in seen and n > 1:
+                yield i, i + 1
+
+
+def compact_with_map(pts, elems):
+    used = sorted({v for f in elems for v in f})
+    m = {v: i for i, v in enumerate(used)}
+    return [pts[v] for v in used], [[m[v] for v in f] for f in elems], m
